@@ -13,7 +13,7 @@ TITLE = "UDS requests serialise to the ISO 14229-1 layout and parse back lossles
 UTILS = "gallia.services.uds.core.utils"
 CLIENT = "gallia.services.uds.core.client"
 
-HARD = {"byte", "width", "const", "endian", "overflow"}
+HARD = {"byte", "width", "const", "endian", "overflow", "length-definite"}
 SOFT = {"length", "unpinned-width", "partial-group"}
 
 # request classes that are not the Request of any registered service / sub-function holder; dynamic parsing returns
